@@ -17,7 +17,8 @@ def run (inp obs : List String) : Verdict :=
   | _ :: stream :: kind :: _, o :: _ =>
     let kindClass := ((kind.splitOn ":").headD kind)
     let feats : List String :=
-      if stream = "api" then ["api", kind]
+      -- parameterised API families report as one rule per family (the replay is the shortest failing member)
+      if stream = "api" then ["api", if kind.startsWith "wopt-" then "wopt" else if kind.startsWith "olib-" then "olib" else kind]
       else if stream = "deep" then [kind]
       else if specialKinds.contains kindClass || kindClass = "layer-path" || kindClass = "glif-path" then [stream, kindClass]
       else [stream]
